@@ -335,6 +335,13 @@ static OrcProgram *fixed_program(const std::string &which) {
   } else if (which == "accl") {
     p = orc_program_new_as(4, 4);
     orc_program_append_str(p, "accl", "a1", "s1", nullptr);
+  } else if (which == "addqp4") {
+    // a 64-bit opcode fed from an ordinary 4-byte parameter (size checks exempt parameters and constants)
+    p = orc_program_new();
+    orc_program_add_destination(p, 8, "d1");
+    orc_program_add_source(p, 8, "s1");
+    orc_program_add_parameter(p, 4, "p1");
+    orc_program_append_str(p, "addq", "d1", "s1", "p1");
   } else if (which == "acc2") {
     // two accumulators (the second one is what a wrapper's uninitialised executor leaves garbage in)
     p = orc_program_new();
@@ -507,6 +514,23 @@ void reference_emulate(OrcProgram *twin, const ProgMeta &meta, RunData &d) {
   for (int k = 0; k < 4; k++) d.acc[k] = (int)total[k];
 }
 
+// Calls into the library that may end in JIT code go through a shim that preserves every callee-saved register
+// itself.  (Measured on the pinned tree: MMX code for a program with nine arrays returns with a callee-saved
+// register changed - a calling-convention defect, C10's subject.  Which harness variable lives in that register
+// is the C++ compiler's choice, so without the shim a rebuild of the harness decides whether a run crashes.)
+extern "C" void orcsim_call_guarded(void (*fn)(OrcExecutor *), OrcExecutor *ex);
+__asm__(".text\n"
+        ".globl orcsim_call_guarded\n"
+        ".type orcsim_call_guarded,@function\n"
+        "orcsim_call_guarded:\n"
+        "  push %rbx\n  push %rbp\n  push %r12\n  push %r13\n  push %r14\n  push %r15\n"
+        "  sub $8, %rsp\n"
+        "  mov %rdi, %rax\n  mov %rsi, %rdi\n  call *%rax\n"
+        "  add $8, %rsp\n"
+        "  pop %r15\n  pop %r14\n  pop %r13\n  pop %r12\n  pop %rbp\n  pop %rbx\n"
+        "  ret\n"
+        ".size orcsim_call_guarded, .-orcsim_call_guarded\n");
+
 static void run_with_row(OrcProgram *prog, OrcCode *code, const ProgMeta &meta, RunMode mode, RunData &d, int row) {
   OrcExecutor exs;
   OrcExecutor *ex = &exs;
@@ -541,17 +565,19 @@ static void run_with_row(OrcProgram *prog, OrcCode *code, const ProgMeta &meta, 
       ex->params[i] = d.stride[i];
     } else if (v.vartype == ORC_VAR_TYPE_PARAM) {
       ex->params[i] = d.params[i];
-      if (i + (ORC_N_PARAMS) < ORC_N_VARIABLES) ex->params[i + (ORC_N_PARAMS)] = d.params[i + (ORC_N_PARAMS)];
+      // the upper-half slot belongs to 64-bit parameters only; for a smaller one nothing ever writes it (a
+      // generated wrapper's executor has stack garbage there)
+      if (v.size == 8 && i + (ORC_N_PARAMS) < ORC_N_VARIABLES) ex->params[i + (ORC_N_PARAMS)] = d.params[i + (ORC_N_PARAMS)];
     }
   }
   switch (mode) {
-    case RUN_EXEC: orc_executor_run(ex); break;
-    case RUN_EMULATE: orc_executor_emulate(ex); break;
-    case RUN_BACKUP: orc_executor_run_backup(ex); break;
+    case RUN_EXEC: orcsim_call_guarded(orc_executor_run, ex); break;
+    case RUN_EMULATE: orcsim_call_guarded(orc_executor_emulate, ex); break;
+    case RUN_BACKUP: orcsim_call_guarded(orc_executor_run_backup, ex); break;
     case RUN_DIRECT: {
       // what every orcc-generated wrapper does: func = c->exec (or p->code_exec); func (ex);
       OrcExecutorFunc f = prog ? (OrcExecutorFunc)prog->code_exec : code->exec;
-      f(ex);
+      orcsim_call_guarded(f, ex);
       break;
     }
   }
